@@ -1341,7 +1341,24 @@ def run_wire_case(case, res: CaseResult):
                         f'{plain_rest[:24].hex()} matches none of the sent messages '
                         f'(closest #{getattr(best, "idx", None)}, {best_l} bytes in common)')
     else:
-        # every frame is one of the messages; now: which ones
+        # every frame is one of the messages; now: which ones. Messages with identical bytes are interchangeable: a frame
+        # is attributed to a send that is known to have succeeded before one that was cancelled or never started
+        groups = {}
+        for e in everything:
+            groups.setdefault(lib_plain(e), []).append(e)
+        for members in groups.values():
+            if len(members) < 2:
+                continue
+            positions = sorted(consumed[e.idx] for e in members if e.idx in consumed)
+            for e in members:
+                consumed.pop(e.idx, None)
+
+            def rank(e):
+                ok = e.outcome == 'ok' and e.open_at_call and e.open_at_return
+                return (0 if ok else (1 if e.called else 2), e.idx)
+            for e, position in zip(sorted(members, key=rank), positions):
+                consumed[e.idx] = position
+                order[position] = e.idx
         for e in everything:
             confirmed = e.outcome == 'ok' and e.open_at_call and e.open_at_return
             if confirmed and e.idx not in consumed:
